@@ -76,7 +76,8 @@ def gen_cases(tier, seed):
                                          'version_long', 'version_bin',
                                          'pktlen', 'pktlen', 'kexinit_mut',
                                          'kexinit_mut', 'kexinit_lists',
-                                         'random', 'pre_kex_types']),
+                                         'random', 'pre_kex_types',
+                                         'disconnect_early']),
                       'chunk': rng.choice(['all', 'random', 7, 4096]),
                       'cseed': rng.randrange(1 << 30)})
 
@@ -178,6 +179,17 @@ def _raw_input(case, rng):
         if len(p) > 250000:
             p = p[:250000]
         return ver + R.Plain().seal(0, p)
+    if g == 'disconnect_early':
+        # a well-formed DISCONNECT right after the version line, with every
+        # kind of reason code ("by application" = 11 included)
+        code = rng.choice([11, 11, 11, 1, 2, 3, 7, 10, 12, 15, 0, 0xffffffff])
+        body = bytes([1]) + u32(code) + \
+            _s(rng.choice([b'', b'bye', b'x' * 300])) + _s(b'')
+        out = ver + R.Plain().seal(0, body)
+        if rng.random() < 0.3:
+            out = ver + R.Plain().seal(0, _valid_kexinit(rng)) + \
+                R.Plain().seal(1, body)
+        return out
     if g == 'pre_kex_types':
         out = ver
         for _ in range(rng.choice([1, 3, 40])):
@@ -306,6 +318,12 @@ def _run_raw(case, mon, viol, info):
                     res = (await asyncio.gather(
                         ct, return_exceptions=True))[0]
                     if not isinstance(res, BaseException):
+                        # the peer never completed a handshake
+                        viol.append({
+                            'mechanism': 'connect_succeeded_without_handshake',
+                            'detail': f'connect() returned {res!r} although '
+                                      f'the peer only sent {len(data)} raw '
+                                      f'bytes (gen={case["gen"]}) and closed'})
                         res.abort()
                     elif not isinstance(res, (Exception,
                                               asyncio.CancelledError)):
